@@ -898,9 +898,8 @@ theorem FF_requireActive (σ : Sess) : FF σ (requireActive σ).1 := by
   all_goals exact FF_autobegin σ
 
 theorem NP_flushCore (τ : Sess) (proc dels : List Oid) (hn : NP τ) (htx : τ.txns ≠ []) :
-    NP (match flushExecute τ proc dels with
-        | (σ, none) => ok σ
-        | (σ, some e) => fail (flushFailed σ) e).1 := by
+    NP (flushCore τ proc dels).1 := by
+  unfold flushCore
   have hG := G_flushExecute_ok τ proc dels
   have hk := TK_flushExecute τ proc dels htx
   cases h : flushExecute τ proc dels with
